@@ -351,7 +351,7 @@ Proof.
   - (* EParent *) go IH.
   - (* EObject *)
     destruct entries as [|e0 es0]; [apply ext_alloc_fresh|].
-    destruct ctx; [exact I|].
+    destruct ctx; [exact I|]. cbn [negb andb].
     apply each_ext. intros c0 st0 _. apply ext_bind.
     + apply obj_entries_ext. intros ke ve Hin.
       assert (Hkv : afree ke = true /\ afree ve = true).
